@@ -70,6 +70,8 @@ class Reporter:
             n = self.known_hits.get(f["id"], 0)
             if n:
                 print(f"KNOWN-FINDING: property={self.pid} {f['id']} {f['what']} (seen {n}x in this run)")
+            else:   # listed for this property but outside what this tier / seed explores (e.g. needs two crashes)
+                print(f"KNOWN-FINDING: property={self.pid} {f['id']} {f['what']} (listed; not exercised by this run)")
         shown = 0
         for i, v in enumerate(self.violations):
             path = save_replay(self.pid, "viol%d" % i, v["replay"])
